@@ -37,6 +37,7 @@ type c12Gauge struct {
 	lastCum map[string]*big.Int
 	InQuant bool // 1us <= End-Start <= 2^63-1 ns, no third-party transfer into the gauge account
 	Kind    string
+	Gone    bool // a reward block took the record off the list (past its end, empty or degenerate)
 }
 
 type c12Obs struct {
@@ -55,6 +56,7 @@ type c12Hist struct {
 	now    time.Time
 	maxT   time.Time
 	id     int
+	cw     int64 // CheckWindow of this chain: reward blocks are the heights = 0 mod cw
 }
 
 func c12Ns(t time.Time) *big.Int {
@@ -329,7 +331,7 @@ func c12Floor(a, e, d *big.Int) *big.Int {
 // reward runs RunRewardBlock at the next reward height at time t.
 func (h *c12Hist) reward(t time.Time) {
 	r := h.r
-	h.height = (h.height/100 + 1) * 100
+	h.height = (h.height/h.cw + 1) * h.cw
 	backwards := t.Before(h.maxT)
 	h.now = t
 	if !backwards {
@@ -429,7 +431,7 @@ func (h *c12Hist) reward(t time.Time) {
 				h.bad("C12/reward/not-monotone", "cumulative release decreased")
 			}
 			g.lastCum[d] = cum
-			if listedPre[g.Hex] && !after && tNs.Cmp(sNs) >= 0 {
+			if (listedPre[g.Hex] || !g.Gone) && !after && tNs.Cmp(sNs) >= 0 {
 				// elapsed and total in whole microseconds, as the property says
 				totalUs := new(big.Int).Quo(new(big.Int).Sub(eNs, sNs), big.NewInt(1000))
 				leftUs := new(big.Int).Quo(new(big.Int).Sub(eNs, tNs), big.NewInt(1000))
@@ -451,6 +453,7 @@ func (h *c12Hist) reward(t time.Time) {
 			}
 		}
 		if listedPre[g.Hex] && !listedPost[g.Hex] {
+			g.Gone = true
 			if after {
 				r.Hist("reward", "removed-past-end")
 				if !pre.escrow[g.Hex].IsZero() && g.InQuant {
@@ -493,7 +496,7 @@ func tailNote(r *RunCtx, g *c12Gauge, left sdk.Coins) {
 
 func (h *c12Hist) txBlock(dt time.Duration) {
 	h.height++
-	if h.height%100 == 0 {
+	if h.height%h.cw == 0 {
 		h.height++
 	}
 	h.now = h.maxT.Add(dt)
@@ -501,12 +504,56 @@ func (h *c12Hist) txBlock(dt time.Duration) {
 	h.e.At(h.height, h.now)
 }
 
+// windows changes CheckWindow and ProofWindow the way a passed parameter-change proposal does.
+func (h *c12Hist) windows(check, proof int64) {
+	pr := StorageParams(h.e)
+	pr.CheckWindow, pr.ProofWindow = check, proof
+	GovSetStorageParams(h.e, pr)
+	h.cw = check
+	h.trace = append(h.trace, map[string]interface{}{"op": "parameter change", "CheckWindow": check, "ProofWindow": proof})
+	h.height = (h.height/h.cw+1)*h.cw + 1
+}
+
+// restart: the chain is stopped, its state exported, and a new chain started from that genesis (bank balances and
+// the storage module's own section).  A gauge is the same gauge afterwards: the schedule the property speaks of runs
+// from the time the deposit was made, not from the restart.
+func (h *c12Hist) restart() error {
+	nxt, err := NewEnv()
+	if err != nil {
+		return err
+	}
+	nxt.At(h.height, h.now)
+	pn := Guard(func() {
+		nxt.App.BankKeeper.InitGenesis(nxt.Ctx, h.e.App.BankKeeper.ExportGenesis(h.e.Ctx))
+		for _, m := range c19Modules() {
+			if m.Name != "storage" {
+				continue
+			}
+			for _, kv := range mustDump(nxt, m.StoreKey) {
+				nxt.Ctx.KVStore(c19StoreKey(nxt, m.StoreKey)).Delete(kv.K)
+			}
+			if ierr := m.Import(nxt, m.Export(h.e)); ierr != nil {
+				panic(ierr)
+			}
+		}
+	})
+	h.trace = append(h.trace, map[string]interface{}{"op": "restart from the exported genesis", "height": h.height, "panic": pn})
+	if pn != "" {
+		nxt.Close()
+		return fmt.Errorf("C12: restart from the exported genesis failed: %s", pn)
+	}
+	h.e.Close()
+	h.e = nxt
+	h.r.Hist("ops", "restart")
+	return nil
+}
+
 func c12NewHist(r *RunCtx, id int) (*c12Hist, error) {
 	e, err := NewEnv()
 	if err != nil {
 		return nil, err
 	}
-	h := &c12Hist{e: e, r: r, byHex: map[string]*c12Gauge{}, height: 100, now: T0, maxT: T0, id: id}
+	h := &c12Hist{e: e, r: r, byHex: map[string]*c12Gauge{}, height: 100, now: T0, maxT: T0, id: id, cw: 100}
 	for i := 1; i <= 9; i++ {
 		for d := range c12Denoms {
 			if err := e.Fund(Acct(i), d, 4_000_000_000_000_000); err != nil {
@@ -656,6 +703,56 @@ func runC12(r *RunCtx) error {
 		h.e.Close()
 	}
 
+	// ---- history 3 (deterministic): a restart from the exported genesis in the middle of three gauges' schedules
+	{
+		h, err := c12NewHist(r, 1_000_003)
+		if err != nil {
+			return err
+		}
+		h.txBlock(6 * time.Second)
+		end := h.now.Add(4000 * time.Second)
+		h.direct(sdk.NewCoins(sdk.NewInt64Coin("ujkl", 7_000_000), sdk.NewInt64Coin("uatom", 1_000_003)), end)
+		h.buy(2, 30, 1000)
+		h.post(4, 5_000_000_000, 3, 14400*3+7)
+		t0 := h.now
+		h.reward(t0.Add(1000 * time.Second))
+		h.txBlock(6 * time.Second)
+		if err := h.restart(); err != nil {
+			h.bad("C12/restart/import-failed", err.Error())
+		} else {
+			h.reward(t0.Add(2000 * time.Second))
+			h.reward(t0.Add(3000 * time.Second))
+			h.reward(end)
+			h.reward(end.Add(1))
+			h.reward(t0.Add(2 * day))
+		}
+		h.e.Close()
+	}
+	// ---- history 4 (deterministic): reward blocks every 11 (then 7, then 150) blocks with proofs due every 50
+	{
+		h, err := c12NewHist(r, 1_000_004)
+		if err != nil {
+			return err
+		}
+		h.windows(11, 50)
+		h.txBlock(6 * time.Second)
+		end := h.now.Add(9000 * time.Second)
+		h.direct(sdk.NewCoins(sdk.NewInt64Coin("ujkl", 90_000_017)), end)
+		h.buy(3, 30, 3)
+		t0 := h.now
+		for i := 1; i <= 5; i++ {
+			h.reward(t0.Add(time.Duration(i) * 700 * time.Second))
+		}
+		h.windows(7, 50)
+		h.reward(t0.Add(5000 * time.Second))
+		h.reward(t0.Add(5001 * time.Second))
+		h.windows(150, 50)
+		h.reward(t0.Add(7000 * time.Second))
+		h.reward(end)
+		h.reward(end.Add(time.Second))
+		h.e.Close()
+	}
+
 	if err := c12UpgradeTwin(r); err != nil {
 		return err
 	}
@@ -670,6 +767,9 @@ func runC12(r *RunCtx) error {
 		}
 		steps := 8 + p.Intn(r.Scale(14, 30))
 		handlerHeavy := p.Chance(1, 3)
+		if k%4 == 3 {
+			h.windows([]int64{11, 7, 30, 150}[(k/4)%4], 50)
+		}
 		for s := 0; s < steps; s++ {
 			lv := h.live()
 			wantCreate := len(lv) == 0 || (len(lv) < 6 && p.Chance(1, 3))
